@@ -1,4 +1,4 @@
-"""C07: integer + - * negation ++/-- are lane-wise two's-complement."""
+"""C07: blend/keep/clear, min/max/minmax/clamp, abs/neg_abs/negate, average, midpoint."""
 import common
 import runner
 
@@ -20,6 +20,11 @@ def type_filter(a):
 
 def run(tier, a=None):
     res = common.Result("C07", tier)
+    import ops
+    r = ops.check_alt_forms()
+    if not isinstance(r, int):
+        raise common.Broken(r)
+    res.extra["alternative_spec_forms_checked_points"] = r
     cfgs = select_cfgs(tier, a)
     runner.run_families(res, cfgs, ["select"], type_filter(a), keytag="value")
     # E4: width-1 vectors on IR that no UB-exploiting pass has touched
@@ -28,8 +33,11 @@ def run(tier, a=None):
     runner.run_families(res, scal, ["select"], lambda vt, cfg: vt.n == 1 and (tf0 is None or tf0(vt, cfg)),
                         override="judge_ub", keytag="ub", ubmode=True)
     res.trusted = ["clang 14 front end and -O2 pipeline preserve the meaning of UB-free executions",
-                   "LLVM LangRef: add/sub/mul without nsw/nuw are arithmetic modulo 2^n per lane"]
-    return common.finish(res, explanation="every integer vector type x configuration x "
-                         "{+,-,*,unary -,++,--, compound forms}: optimised IR summarised into a "
-                         "closed form and compared with add/sub/mul modulo 2^bits on the same lane",
+                   "LLVM LangRef semantics of the IR instructions; Intel SDM semantics of the x86 intrinsics as modelled in spec/isa.py",
+                   "the term normaliser, the exact IEEE evaluator (lib/fpeval.py) and the abstract interpreter (lib/absint.py, self-tested against the concrete evaluator)"]
+    return common.finish(res, explanation="every vector type x configuration x {blend, keep, clear, min, max, minmax, "
+                         "clamp, abs, neg_abs, negate(mask, x), average, midpoint, float sign operations}: optimised IR "
+                         "summarised into a closed form and compared with the lane-wise definition (mathematical "
+                         "average / std::midpoint in a wider type); width-1 types additionally on unoptimised IR for "
+                         "undefined behaviour",
                          write_floor=getattr(a, "write_floor", False))
